@@ -39,10 +39,20 @@ def cases(tier):
     for (na, nb) in ((2, 0), (1, 1)):
         for ev in ('termA', 'termB', 'termAB'):
             out.append(dict(na=na, nb=nb, kseg=2, ev=ev, dev=0, rx='msg'))
+    # the other side queues a bundle at the moment of the terminate(): it has not seen the SESS_TERM yet, so its
+    # transfer is legitimately started and must still complete
+    for (na, nb) in (((0, 0), (1, 0)) if tier == 'quick' else ((0, 0), (1, 0), (1, 1))):
+        for rx in (('msg',) if tier == 'quick' else ('all', 'msg')):
+            out.append(dict(na=na, nb=nb, kseg=2, ev='termA', dev=0, late='B', rx=rx))
     # the peer's KEEPALIVE travels right behind its SESS_TERM (both in one read)
     for (na, nb) in ((0, 0), (1, 0), (1, 1)):
         out.append(dict(na=na, nb=nb, kseg=2, ev='termA', dev=0, ka=1))
+    # network latency: one or two scheduling deviations let a side run its queue before it reads what has arrived
+    for pt in ('4', '6'):
+        out.append(dict(na=1, nb=0, kseg=1, ev='termA', dev=1, late='B', rx='msg', pts=pt))
     if tier == 'thorough':
+        for pt in ('0', '2', '3', '5', '7', '8', '10'):
+            out.append(dict(na=1, nb=0, kseg=1, ev='termA', dev=1, late='B', rx='msg', pts=pt))
         out.append(dict(na=1, nb=1, kseg=2, ev='termA', dev=1))
         out.append(dict(na=1, nb=1, kseg=2, ev='termAB', dev=1))
     return out
@@ -57,6 +67,8 @@ def harness(case, tier):
         return {'class': 'not-established'}
     ev = case['ev']
     points = [0, 3, 6, 10, 16, 10 ** 6] if tier == 'quick' else [0, 1, 2, 3, 4, 6, 8, 10, 13, 16, 24, 10 ** 6]
+    if case.get('pts'):
+        points = [int(x) for x in str(case['pts']).split('/')]
     when = points[c.choose(len(points), 'event-point')]
     sent = {'A': [], 'B': []}
     for i in range(case['na']):
@@ -64,7 +76,7 @@ def harness(case, tier):
     for i in range(case['nb']):
         sent['B'].append(queue_bundle(c, w, 'B', i, case['kseg']))
     start = w.steps
-    w.run(600, choose_budget=case['dev'], until=lambda: w.steps - start >= when)
+    w.run(600, choose_budget=0 if case.get('late') else case['dev'], until=lambda: w.steps - start >= when)
     midflight = not (w.a.is_sess_idle() and w.b.is_sess_idle())
 
     # the reason code is the caller's (D-Bus type y): assigned, unassigned and private-use values
@@ -79,6 +91,8 @@ def harness(case, tier):
     did = []
     if ev in ('termA', 'termAB', 'termA-then-B'):
         did.append(('A', term(w.a)))
+    if case.get('late') == 'B' and w.b._in_sess and not w.b._in_term:
+        sent['B'].append(queue_bundle(c, w, 'B', 7, case['kseg']))
     if ev in ('termB', 'termAB'):
         did.append(('B', term(w.b)))
     if ev == 'termA-then-B':
